@@ -105,6 +105,15 @@ def count_blocks(req):
     return out
 
 
+def blocks_expected(req):
+    """the dict both twins should return, from the model's block list (same hash seed as the twins)"""
+    from collections import defaultdict
+    d = defaultdict(int)
+    for b in ([] if req["blocks"] == "_" else [R(x) for x in req["blocks"].split(",")]):
+        d[hash(b)] += len(b)
+    return {"v": repr(sorted(d.items()))}
+
+
 def is_tree(req):
     e = None if req["mode"] is None else O.TreeEntry(b"x", int(req["mode"], 16) if req["mode"] != "None" else None, b"0" * 40)
     out = {}
@@ -127,4 +136,4 @@ def create_both(req):
 
 
 HANDLERS = dict(parse_tree=parse_tree, sorted_items=sorted_items, bisect=bisect, merge_entries=merge_entries,
-                count_blocks=count_blocks, is_tree=is_tree, apply_both=apply_both, create_both=create_both)
+                count_blocks=count_blocks, blocks_expected=blocks_expected, is_tree=is_tree, apply_both=apply_both, create_both=create_both)
